@@ -469,7 +469,18 @@ impl Monitor {
                         self.v("window_exceeded", format!("{outstanding} publishes unacknowledged on the wire, configured limit {}, negotiated {limit}", self.limit));
                     }
                     let mut counter = self.first_sent_counter;
+                    let c11 = self.is("C11");
+                    let mut msgs: Vec<(&str, String)> = vec![];
                     if let Some(l) = self.ledger.iter_mut().find(|l| l.tag == *tag) {
+                        if c11 && l.stage == Stage::Abandoned {
+                            msgs.push(("abandoned_request_sent", format!("publish p{tag} was carried over a failure, the broker reported no session, and it was sent all the same (packet id {pkid})")));
+                        }
+                        if c11 && l.first_sent.is_some() && l.pkid != 0 && l.pkid != *pkid {
+                            msgs.push(("retransmit_pkid_changed", format!("publish p{tag} was first sent with packet id {} and is sent again with packet id {pkid}", l.pkid)));
+                        }
+                        if c11 && l.first_sent.is_some() && l.qos != *qos {
+                            msgs.push(("retransmit_content_changed", format!("publish p{tag} was accepted with QoS {} and is sent again with QoS {qos}", l.qos)));
+                        }
                         l.pkid = *pkid;
                         l.on_current = true;
                         if l.first_sent.is_none() {
@@ -478,6 +489,9 @@ impl Monitor {
                         }
                     }
                     self.first_sent_counter = counter;
+                    for (c, d) in msgs {
+                        self.v(c, d);
+                    }
                     self.check_resume_order(*tag);
                 }
             }
